@@ -122,6 +122,21 @@ pub fn get_32_byte_storage_variables(
     storage_variables
 }
 
+///Returns the expressions that the left hand side of an assignment assigns to: the components of a tuple `(a, b) = ...`, the inner expression of `(a) = ...`, or the expression itself
+pub fn get_assignment_targets(expression: pt::Expression) -> Vec<pt::Expression> {
+    match expression {
+        pt::Expression::Parenthesis(_, box_expression) => get_assignment_targets(*box_expression),
+        pt::Expression::List(_, parameters) => parameters
+            .into_iter()
+            .filter_map(|(_, parameter)| parameter)
+            //A component with a name is a declaration, not an assignment target
+            .filter(|parameter| parameter.name.is_none())
+            .flat_map(|parameter| get_assignment_targets(parameter.ty))
+            .collect(),
+        _ => vec![expression],
+    }
+}
+
 pub fn get_constant_variables(source_unit: pt::SourceUnit) -> HashMap<String, Loc> {
     let mut variables: HashMap<String, Loc> = HashMap::new();
 
